@@ -244,9 +244,28 @@ func TestVerifC12Dns(t *testing.T) {
 	if VThorough() {
 		nProg, nProbe = 1500, 60
 	}
+	var prevRules []c12DnsRule
 	for pi := 0; pi < nProg; pi++ {
 		nr := 1 + r.Intn(6)
 		var rules []c12DnsRule
+		if prevRules != nil && r.Chance(0.35) {
+			// a reload is usually the previous configuration, slightly edited: one prefix of one rule changes
+			for _, ru := range prevRules {
+				cp := ru
+				cp.pfx = append([]netip.Prefix(nil), ru.pfx...)
+				rules = append(rules, cp)
+			}
+			k := r.Intn(len(rules))
+			j := r.Intn(len(rules[k].pfx))
+			q := rules[k].pfx[j]
+			nb := q.Bits() + 1 - 2*r.Intn(2)
+			if nb < 1 || nb > q.Addr().BitLen() {
+				nb = q.Bits()/2 + 1
+			}
+			rules[k].pfx[j] = netip.PrefixFrom(q.Addr(), nb)
+			nr = 0
+			stats.Inc("dns.prog.edited_reload")
+		}
 		for i := 0; i < nr; i++ {
 			ru := c12DnsRule{neg: r.Chance(0.25), reject: r.Bool()}
 			if i > 0 && r.Chance(0.3) {
@@ -273,6 +292,7 @@ func TestVerifC12Dns(t *testing.T) {
 			}
 			rules = append(rules, ru)
 		}
+		prevRules = rules
 		text := c12DnsText(rules)
 		if pi < 2 {
 			stats.Sample(text)
